@@ -12,6 +12,7 @@ import Percival.Spec.Crc32c
     pbkdf2 <P> <S> <c> <dkLen> | pbkdf2sum …
     crc <align> <hex> | crcinit | crcupd <align> <hex> | crcfin
     big <alg> <n> <cut> <align>
+    bigd a <n> <seed>
 
 Every answer has an L1 part and an L2 part.  **The L1 part is computed by the `Spec` function** on the bytes
 *recorded* by this file (`Slot.h`: the bytes fed since `init`; `Slot.m`: key and bytes of the HMAC;
@@ -23,6 +24,10 @@ describe the context (`forged`), and `fin` has no L1 part (`Out.forged`).
 
 `Properties/C01.lean` (`exec_digest_l1_eq_l2`) proves that in every line `stepOp` can produce from the initial
 state the L1 digest equals the L2 digest.
+
+`bigd a n seed` is the one op whose L1 part is *not* computed by the `Spec` function: the message (`pattern n seed`,
+tens of MiB) is never materialised; the model's `_Update` is folded over chunks of 2^16 bytes made on the fly and
+`_Final` gives the digest.  `C01.exec_bigd_eq_spec` proves that this digest is the `Spec`'s digest of `pattern n seed`.
 -/
 namespace Percival.Model.HashStep
 open Percival.Spec (Bytes)
@@ -123,6 +128,9 @@ inductive Op where
   /-- a message far beyond what the model can run (`n` bytes), hashed by the implementation in three different
       partitions (one call / two calls cut at `cut` / 1 MiB pieces) -/
   | big (n cut : Nat)
+  /-- `n` bytes of `pattern n seed` (tens of MiB: bit counts with bits 28‥ set), hashed by the implementation in one
+      `*_Buf` call and as `_Init`/one `_Update`/`_Final`, against the model streamed over the same bytes -/
+  | bigd (a : AlgId) (n seed : Nat)
   | crc (b : Bytes)
   | crcinit
   | crcupd (b : Bytes)
@@ -146,6 +154,9 @@ inductive Out where
   | sum (spec : Bytes)
   /-- `same <n>`: the three partitions must agree -/
   | same (n : Nat)
+  /-- `sum <digest>` (`bigd`): the model's digest of the streamed pattern, which is the specified digest of
+      `pattern n seed` (`C01.exec_bigd_eq_spec`) -/
+  | streamed (d : Bytes)
   /-- `<l1> | s=<state> d=<l2>`: specified CRC / the model's state and its `CRC32C_Final` -/
   | crc (l1 : Bytes) (s : UInt32) (l2 : Bytes)
   /-- `ok | s=<state>` -/
@@ -216,6 +227,54 @@ def stepSlot (f : Fam) (s : Slot f) : SlotOp → Slot f × Out
     partition) the only admissible answer is that the three results agree -/
 def bigOk (n cut : Nat) : Bool := cut ≤ n && n ≤ 2^32 + 2^20
 
+/-! ## `bigd`: a long message against the model
+
+The bytes are `pattern n seed` (byte `i` = `patByte seed i`, the same expression as `bigd_fill` in
+`harness/h_hash.c`).  They are produced chunk by chunk (`bigdChunk` = 2^16 bytes) and fed to the model's
+`_Update` at once, so only one chunk is alive at a time. -/
+
+/-- byte `i` of the pattern: `(uint8_t)(seed + i*7 + (i>>8)*13 + (i>>16)*101)` -/
+def patByte (seed i : Nat) : UInt8 := UInt8.ofNat (seed + i * 7 + (i >>> 8) * 13 + (i >>> 16) * 101)
+
+/-- bytes `off ‥ off+len` of the pattern -/
+def patChunk (seed off len : Nat) : Bytes := (List.range' off len).map (patByte seed)
+
+def bigdChunk : Nat := 2^16
+
+/-- enough chunks for `n` bytes -/
+def nChunks (n : Nat) : Nat := (n + (bigdChunk - 1)) / bigdChunk
+
+/-- the pattern from `off` on, `rest` bytes, in chunks of `bigdChunk` (the last one shorter); at most `fuel` chunks -/
+def patChunks (seed : Nat) : (fuel off rest : Nat) → List Bytes
+  | 0, _, _ => []
+  | k + 1, off, rest =>
+    let l := min bigdChunk rest
+    patChunk seed off l :: patChunks seed k (off + l) (rest - l)
+
+/-- the message of `bigd a n seed` -/
+def pattern (n seed : Nat) : Bytes := (patChunks seed (nChunks n) 0 n).flatten
+
+/-- `_Update` over the chunks of `patChunks`, each chunk made when it is needed
+    (`= (patChunks seed fuel off rest).foldl f.update c`: `Proofs.HashStep.feedPattern_eq_foldl`) -/
+def Fam.feedPattern (f : Fam) (seed : Nat) : (fuel off rest : Nat) → Hash.Ctx f.h.alg → Hash.Ctx f.h.alg
+  | 0, _, _, c => c
+  | k + 1, off, rest, c =>
+    let l := min bigdChunk rest
+    f.feedPattern seed k (off + l) (rest - l) (f.update c (patChunk seed off l))
+
+/-- `_Init`, `_Update` per chunk of the pattern, `_Final` -/
+def Fam.bigd (f : Fam) (n seed : Nat) : Bytes := f.h.final (f.feedPattern seed (nChunks n) 0 n f.init)
+
+def AlgId.fam : AlgId → Fam
+  | .sha256 => fam256
+  | .sha1 => fam1
+  | .md5 => fam5
+
+def bigdLimit : Nat := 2^30
+
+/-- what the harness accepts as well: at most 2^30 bytes, the seed is one byte -/
+def bigdOk (n seed : Nat) : Bool := n ≤ bigdLimit && seed < 256
+
 def stepOp (st : St) : Op → St × Out
   | .slot .sha256 op => let r := stepSlot fam256 st.s256 op; ({ st with s256 := r.1 }, r.2)
   | .slot .sha1 op => let r := stepSlot fam1 st.s1 op; ({ st with s1 := r.1 }, r.2)
@@ -223,6 +282,7 @@ def stepOp (st : St) : Op → St × Out
   | .pbkdf2 P S c dk => (st, .digest (Percival.Spec.Pbkdf2.pbkdf2Sha256 P S c dk) (Pbkdf2.pbkdf2 P S c dk))
   | .pbkdf2sum P S c dk => (st, .sum (Percival.Spec.Pbkdf2.pbkdf2Sha256 P S c dk))
   | .big n cut => (st, if bigOk n cut then .same n else .skip)
+  | .bigd a n seed => (st, if bigdOk n seed then .streamed (a.fam.bigd n seed) else .skip)
   | .crc b =>
     let s := Crc32c.update Crc32c.init b
     (st, .crc (Percival.Spec.Crc32c.crc32c b) s (Crc32c.final s))
